@@ -96,7 +96,9 @@ m('blockcol_in_structure', ['C05', 'C10'], '_base/blocks.py',
   '    def in_structure(self) -> PyTree[jax.ShapeDtypeStruct]:\n        return self.block_leaves[-1].out_structure() if len(self.block_leaves) == 3 else self.block_leaves[0].in_structure()\n\n    def as_matrix(self) -> Inexact[Array, \'a b\']:\n        return jnp.vstack')
 m('out_promoted_dtype_inputs', ['C05'], '_base/core.py', '        leaves = jax.tree.leaves(self.out_structure())\n        return jnp.result_type(*leaves)', '        leaves = jax.tree.leaves(self.in_structure())\n        return jnp.result_type(*leaves)')
 m('polarizer_square', ['C05', 'C08'], 'operators/polarizers.py', 'class LinearPolarizerOperator(AbstractLinearOperator):', 'from furax.operators import square\n\n\n@square\nclass LinearPolarizerOperator(AbstractLinearOperator):')
-m('revert_toeplitz_dtype', ['C05', 'C09'], 'operators/toeplitz.py', 'y = jnp.zeros(l + x_padding_end, dtype=jnp.result_type(x.dtype, band_values.dtype))', 'y = jnp.zeros(l + x_padding_end)')
+m('revert_toeplitz_dtype', ['C05', 'C09'], 'operators/toeplitz.py', 'y = jnp.zeros(l + x_padding_end, dtype=jnp.promote_types(dtype, jnp.float32))', 'y = jnp.zeros(l + x_padding_end)')
+m('revert_toeplitz_half_precision_fft', ['C09'], 'operators/toeplitz.py', '        if jnp.issubdtype(dtype, jnp.floating):\n            # the FFT of half-precision data is computed in single precision\n            Y_padded = Y_padded.astype(dtype)\n', '')
+m('revert_toeplitz_half_precision_overlap_save', ['C09'], 'operators/toeplitz.py', 'y = jnp.zeros(l + x_padding_end, dtype=jnp.promote_types(dtype, jnp.float32))', 'y = jnp.zeros(l + x_padding_end, dtype=dtype)')
 # ---- C06 ------------------------------------------------------------------------------------------
 m('homothety_inverse_sign', ['C06'], '_base/core.py', 'return HomothetyOperator(1 / self.value, self._in_structure)', 'return HomothetyOperator(1 / jnp.abs(self.value), self._in_structure)')
 m('pinv_no_guard', ['C06'], '_base/diagonal.py', 'return jnp.where(self._diagonal != 0, 1 / self._diagonal, 0)', 'return 1 / self._diagonal')
